@@ -36,7 +36,8 @@ ASSUMPTIONS = [
     "ARPACK's start vector is random; tolerances (1e-7 relative on eigenvalues, 1e-8 on residuals) absorb it",
 ]
 
-DENSE_KINDS = ["real_sym", "herm", "complex_sym", "real_gen_realspec", "real_gen_pairs", "complex_gen"]
+DENSE_KINDS = ["real_sym", "herm", "complex_sym", "real_gen_realspec", "real_gen_pairs", "complex_gen",
+               "real_sym_struct"]
 SORTERS = ["default", "desc", "abs_target", "abs"]
 
 TOL_RES = 1e-9     # residual, relative to (|A| + |lam||B|) |q|
@@ -162,7 +163,46 @@ def _bilinear_ok(X, B):
     return bool(np.all(num >= 0.05 * den))
 
 
+def build_struct(case):
+    """Real symmetric matrices with exact structure: block diagonal of [[a,-b],[-b,a]] blocks (+ a 1x1 block for odd n),
+    optionally with a scalar mass matrix m*I. Their eigenvectors (1,1)/sqrt2 and (1,-1)/sqrt2 are exact in floating
+    point: antisymmetric modes have an exactly zero mean entry, symmetric structures that random matrices never give."""
+    rng = np.random.default_rng(case["payload_seed"])
+    n = case["n"]
+    A = np.zeros((n, n))
+    vals = []
+    used = set()
+    k = 0
+    while k + 1 < n:
+        for _ in range(100):
+            a, b = int(rng.integers(-6, 7)), int(rng.integers(1, 5))
+            if (a + b) not in used and (a - b) not in used:
+                break
+        used.update([a + b, a - b])
+        A[k:k + 2, k:k + 2] = [[a, -b], [-b, a]]
+        vals += [a + b, a - b]
+        k += 2
+    if k < n:
+        for _ in range(100):
+            a = int(rng.integers(-12, 13))
+            if a not in used:
+                break
+        A[k, k] = a
+        vals.append(a)
+    perm = rng.permutation(n)            # hide the block structure, keep it exact
+    A = A[np.ix_(perm, perm)] * case["scale"]
+    L = np.array(vals, dtype=float) * case["scale"]
+    B = None
+    if case["gen"]:
+        m = float(rng.choice([0.5, 2.0, 4.0]))
+        B = m * np.eye(n)
+        L = L / m
+    return A, B, L
+
+
 def build_dense(case):
+    if case["kind"] == "real_sym_struct":
+        return build_struct(case)
     rng = np.random.default_rng(case["payload_seed"])
     kind, n, gen = case["kind"], case["n"], case["gen"]
     cplxA = kind in ("herm", "complex_sym", "complex_gen")
@@ -307,11 +347,14 @@ def _check_dense(case):
     import pymoto as pym
     A, B, L = build_dense(case)
     n, kind = case["n"], case["kind"]
+    labels_extra = []
+    if kind == "real_sym_struct":
+        kind, labels_extra = "real_sym", ["exact_structure"]
     target = (case["target"][0] + 1j * case["target"][1]) * case["scale"]
     if kind in ("real_sym", "herm", "real_gen_realspec"):
         target = float(np.real(target))
     herm_pencil = kind in ("real_sym", "herm")
-    labels = ["dense", kind, "generalised" if B is not None else "standard", f"sorter_{case['sorter']}"]
+    labels = ["dense", kind, "generalised" if B is not None else "standard", f"sorter_{case['sorter']}"] + labels_extra
     if n >= 3:
         labels.append("n>=3")
     if n >= 2 and np.max(np.abs(A - np.diag(np.diag(A)))) > 1e-8 * np.max(np.abs(A)):
